@@ -1,7 +1,11 @@
-(** Extraction roots of the continuous-factor sampling model (driver: extract/drv_cont.ml). *)
-From SP Require Out.Continuous.
+(** Extraction roots of the continuous-factor sampling model (driver: extract/drv_cont.ml).
+    [attempt] and [scan] are the specification-side reading of the resample loop
+    (Out/ContinuousLive.v: verdict of one attempt, first non-rejected attempt of a
+    stream); the harness evaluates them on the recorded draws. *)
+From SP Require Out.Continuous Out.ContinuousLive.
 Definition roots :=
   (Out.Continuous.window_post_init, Out.Continuous.get_window_val,
    Out.Continuous.check_dependency, Out.Continuous._sample_continuous,
    Out.Continuous.check_constraints, Out.Continuous.sample_continuous,
-   Out.Continuous.merge, Out.Continuous.synthesize_post).
+   Out.Continuous.merge, Out.Continuous.synthesize_post,
+   Out.ContinuousLive.attempt, Out.ContinuousLive.scan).
